@@ -13,8 +13,10 @@ import (
 	"github.com/ipfs/go-cid"
 	carv2 "github.com/ipld/go-car/v2"
 	"github.com/ipld/go-car/v2/blockstore"
+	"github.com/ipld/go-car/v2/index"
 	"github.com/ipld/go-car/v2/storage"
 	"github.com/ipld/go-car/v2/storage/deferred"
+	mh "github.com/multiformats/go-multihash"
 	"github.com/multiformats/go-varint"
 )
 
@@ -364,7 +366,61 @@ func c05RunFinalFileImpl(c *Ctx, file []byte) Val {
 	return VL{c05InspectVerdict(file), c05VerifyVerdict(c, file)}
 }
 
+// kind "finalwide": a CIDv1 (raw) with hash code `code` and an n-byte digest, too large to ship in a case line,
+// is the first Put into a new CARv2 store (0 blockstore, 1 storage); then Finalize and index.ReadFrom on the file.
+func c05RunWideImpl(c *Ctx, kind uint64, o wOpts, n uint64, code uint64) Val {
+	ctx := context.Background()
+	dir, err := os.MkdirTemp(c.Work, "wide")
+	if err != nil {
+		panic(err)
+	}
+	defer os.RemoveAll(dir)
+	path := filepath.Join(dir, "a.car")
+	digest := bytes.Repeat([]byte{7}, int(n))
+	mhb, err := mh.Encode(digest, code)
+	if err != nil {
+		panic(err)
+	}
+	k := cid.NewCidV1(cid.Raw, mhb)
+	var putErr, finErr error
+	switch kind {
+	case 0:
+		bs, err := blockstore.OpenReadWrite(path, nil, o.v2()...)
+		if err != nil {
+			panic(err)
+		}
+		blk, _ := blocks.NewBlockWithCid([]byte("x"), k)
+		putErr = bs.Put(ctx, blk)
+		finErr = bs.Finalize()
+	default:
+		f, err := os.OpenFile(path, os.O_RDWR|os.O_CREATE, 0o666)
+		if err != nil {
+			panic(err)
+		}
+		defer f.Close()
+		sc, err := storage.NewReadableWritable(f, nil, o.v2()...)
+		if err != nil {
+			panic(err)
+		}
+		putErr = sc.Put(ctx, string(k.Bytes()), []byte("x"))
+		finErr = sc.Finalize()
+	}
+	readable := false
+	if rd, err := carv2.OpenReader(path); err == nil {
+		if ir, err := rd.IndexReader(); err == nil && ir != nil {
+			_, err := index.ReadFrom(ir)
+			readable = err == nil
+		}
+		rd.Close()
+	}
+	return VL{outOf(putErr), outOf(finErr), vbool(readable)}
+}
+
 func init() {
+	registerReplay("finalwide", func(c *Ctx, in Val) Val {
+		l := in.(VL)
+		return c05RunWideImpl(c, uint64(l[0].(VN)), wOptsFromVal(l[1]), uint64(l[2].(VN)), uint64(l[3].(VN)))
+	})
 	registerReplay("final", func(c *Ctx, in Val) Val {
 		l := in.(VL)
 		kind := uint64(l[0].(VN))
